@@ -43,3 +43,4 @@ import p_settable  # noqa: E402,F401
 import p_wrappers  # noqa: E402,F401
 import p_reference  # noqa: E402,F401
 import p_config  # noqa: E402,F401
+import p_lifetimes  # noqa: E402,F401
